@@ -192,8 +192,21 @@ def check_case(case):
         f = F(range(n), **{k: v.copy() for k, v in data.items()})
         entry = run['entry']
         T = L + run.get('tpos', 0) % max(1, n - L - K)
+        if entry != 'evaluate':      # (one evaluation pass is specified for feasible periods only)
+            if run.get('infeasible') == 'front' and L > 0:
+                T = L - 1
+            elif run.get('infeasible') == 'back' and K > 0:
+                T = n - K
         t = T - n if run.get('negative') else T
         opts = dict(run.get('opts') or {})
+        if run.get('presolve'):
+            # both twins start from an already solved state (re-solving is where a stale comparison baseline shows)
+            R.quiet_call(attempt, p.solve, max_iter=200, tol=1e-12, failures='ignore', errors='ignore')
+            R.quiet_call(attempt, f.solve, max_iter=200, tol=1e-12, failures='ignore', errors='ignore')
+            for nm in names:                       # identical starting point for the measured call
+                f[nm] = np.asarray(p[nm]).copy()
+            f.status = np.asarray(p.status).copy()
+            f.iterations = np.asarray(p.iterations).copy()
         detail = f'{text!r} entry={entry} t={t} n={n} {SC.opts_text(opts)} bases={run.get("bases")}'
         if entry == 'evaluate':
             a = R.quiet_call(attempt, p._evaluate, t)
@@ -204,15 +217,20 @@ def check_case(case):
             b = R.quiet_call(attempt, f.solve_t, t, **opts)
             tol = 0.0 if dyadic else ITER_TOL
         else:
-            a = R.quiet_call(attempt, p.solve, **opts)
-            b = R.quiet_call(attempt, f.solve, **opts)
+            skw = dict(opts)
+            if run.get('infeasible') and not (L <= T <= n - 1 - K):
+                # an explicit request to start (or end) the run at a period that cannot accommodate the lags/leads
+                skw['start' if T < L else 'end'] = T
+            a = R.quiet_call(attempt, p.solve, **skw)
+            b = R.quiet_call(attempt, f.solve, **skw)
             tol = 0.0 if dyadic else ITER_TOL
         # the statement covers data for which values stay finite: skip runs in which the Python twin met a numerical error
         if not all(np.all(np.isfinite(np.asarray(p[nm]))) for nm in names) or \
                 (not a.ok and type(a.exc).__name__ == 'SolutionError'):
             res.tag('skipped:non-finite-python-run')
             continue
-        cls = entry + ('/max_iter=0' if opts.get('max_iter', 100) == 0 and entry != 'evaluate' else
+        cls = entry + ('/infeasible-period' if run.get('infeasible') and not (L <= T <= n - 1 - K) else
+                       '/max_iter=0' if opts.get('max_iter', 100) == 0 and entry != 'evaluate' else
                        '/offset' if opts.get('offset') and entry != 'evaluate' else '')
         oa, ob = SC.outcome_of(a), SC.outcome_of(b)
         if oa[1] != ob[1]:
@@ -334,6 +352,7 @@ def runs_strategy():
     run = st.fixed_dictionaries({
         'entry': st.sampled_from(['evaluate', 'solve_t', 'solve', 'solve_t']),
         'tpos': st.integers(0, 3), 'negative': st.booleans(), 'extra': st.integers(0, 3), 'opts': opts,
+        'presolve': st.sampled_from([False, False, True]), 'infeasible': st.sampled_from([None, None, None, 'front', 'back']),
         'bases': st.lists(st.lists(st.sampled_from([1.0, 2.0, 0.5, 4.0, 3.0, 0.25, 1.5]), min_size=2, max_size=4), min_size=1, max_size=3),
     })
     return st.lists(run, min_size=3, max_size=6)
@@ -361,7 +380,14 @@ def fixed_family():
                    ['assign', V('Z'), ['bin', '-', V('Y'), V('Z', -1)]]],
                   [{'entry': 'solve', 'opts': {'tol': 2.0 ** -k, 'max_iter': 40, 'failures': 'ignore'}} for k in (1, 4, 10)]
                   + [{'entry': 'solve_t', 'tpos': 1, 'opts': {'min_iter': m, 'max_iter': m + 1, 'tol': 0.25, 'failures': 'ignore'}} for m in (0, 2, 3)]
-                  + [{'entry': 'solve', 'opts': {'offset': -1, 'max_iter': 40, 'tol': 0.125}},
+                  + [{'entry': 'solve', 'presolve': True, 'opts': {'offset': -1, 'max_iter': 40, 'tol': 2.0 ** -12}},
+                     {'entry': 'solve', 'presolve': True, 'opts': {'offset': -1, 'max_iter': 1, 'tol': 2.0 ** -12, 'failures': 'ignore'}},
+                     {'entry': 'solve_t', 'presolve': True, 'tpos': 1, 'opts': {'offset': -1, 'max_iter': 40, 'tol': 2.0 ** -12}},
+                     {'entry': 'solve_t', 'infeasible': 'front', 'opts': {'max_iter': 5}},
+                     {'entry': 'solve', 'infeasible': 'front', 'opts': {'max_iter': 5}},
+                     {'entry': 'solve_t', 'infeasible': 'front', 'negative': True, 'opts': {'max_iter': 5}},
+                     {'entry': 'evaluate', 'infeasible': 'front'},
+                     {'entry': 'solve', 'opts': {'offset': -1, 'max_iter': 40, 'tol': 0.125}},
                      {'entry': 'solve', 'opts': {'offset': -1, 'max_iter': 1, 'tol': 0.125, 'failures': 'ignore'}},
                      {'entry': 'solve_t', 'tpos': 1, 'opts': {'offset': 1, 'max_iter': 1, 'tol': 0.125, 'failures': 'ignore'}}]))
     # the last check variable is the one that keeps moving (a 0-based check index never tests it)
@@ -372,7 +398,12 @@ def fixed_family():
     progs.append(([['assign', V('Y'), ['bin', '+', ['bin', '*', V('a', None, 'p'), V('X', -1)],
                                        ['bin', '-', V('u', None, 'e'), ['bin', '*', V('b', -1, 'p'), V('W', 1)]]]]],
                   [{'entry': 'evaluate', 'tpos': 0}, {'entry': 'evaluate', 'tpos': 1, 'negative': True},
-                   {'entry': 'solve', 'opts': {'max_iter': 5}}]))
+                   {'entry': 'solve', 'opts': {'max_iter': 5}},
+                   {'entry': 'solve_t', 'infeasible': 'back', 'opts': {'max_iter': 5}},
+                   {'entry': 'solve', 'infeasible': 'back', 'opts': {'max_iter': 5}},
+                   {'entry': 'solve', 'infeasible': 'front', 'opts': {'max_iter': 5}},
+                   {'entry': 'solve_t', 'infeasible': 'front', 'opts': {'max_iter': 5}},
+                   {'entry': 'evaluate', 'infeasible': 'back', 'negative': True}]))
     # long equation that needs continuation lines; many variables
     many = [V('X%d' % i, -(i % 3)) for i in range(40)]
     long_rhs = many[0]
